@@ -364,7 +364,10 @@ impl<C: CellType> OptRebuild<'_, C> {
                     let mut last = isize::MIN;
                     for &var in vars {
                         if let Some(expr) = self.pending.get(&var) {
-                            if expr.add_count() > 1 || (last == var && expr.op_count() > 1) {
+                            if expr.add_count() > 1
+                                || expr.op_count() >= 32
+                                || (last == var && expr.op_count() > 1)
+                            {
                                 self.emit(var);
                             }
                         }
